@@ -394,7 +394,7 @@ def ref_validate(spec, table, rows=None, restrict_all=False):
         for g in groups:
             subset = [x for x in g if x in names]
             if not subset:
-                raise Undefined("joint unique over no present column")
+                continue  # nothing to compare
             if any(names.count(x) > 1 for x in subset):
                 raise Undefined("joint unique over duplicated labels")
             cols = [tcols[names.index(x)]["cells"] for x in subset]
